@@ -380,6 +380,52 @@ func init() {
 		na = append(na, bs...)
 		*b = Slice{A: na}
 	}
+	// sync.Pool: an environment model. Put keeps the item in per-path state;
+	// Get hands back the most recent pooled item or behaves as if the pool
+	// had dropped it (both are allowed by the documented contract): a forked
+	// choice, so code that relies on what a reused item still holds is
+	// explored on both branches.
+	externals["(*sync.Pool).Put"] = func(p *Path, _ *frame, _ *ssa.Function, a []Value) (Value, bool) {
+		key, _ := a[0].(*Value)
+		if key == nil {
+			p.runtimePanic("nil *sync.Pool")
+		}
+		if it, ok := a[1].(Iface); ok && it.T == nil && it.L == nil {
+			return nil, true
+		}
+		if p.pools == nil {
+			p.pools = map[*Value][]Value{}
+		}
+		p.pools[key] = append(p.pools[key], a[1])
+		return nil, true
+	}
+	externals["(*sync.Pool).Get"] = func(p *Path, fr *frame, _ *ssa.Function, a []Value) (Value, bool) {
+		key, _ := a[0].(*Value)
+		if key == nil {
+			p.runtimePanic("nil *sync.Pool")
+		}
+		if items := p.pools[key]; len(items) > 0 {
+			b := p.newVar("pool_reuse", smt.BoolSort)
+			if p.choose([]*smt.Term{b, p.C.Not(b)}) == 0 {
+				p.pools[key] = items[:len(items)-1]
+				p.note("stub: sync.Pool.Get returns a pooled item or a fresh one (forked)")
+				return items[len(items)-1], true
+			}
+		}
+		st := (*key).(Struct)
+		newf := st[len(st)-1]
+		switch f := newf.(type) {
+		case *Closure:
+			if f != nil {
+				return p.callFn(fr, f, nil), true
+			}
+		case *ssa.Function:
+			if f != nil {
+				return p.callFn(fr, f, nil), true
+			}
+		}
+		return Iface{}, true
+	}
 	externals["(*strings.Builder).WriteString"] = func(p *Path, _ *frame, _ *ssa.Function, a []Value) (Value, bool) {
 		if _, ok := a[1].(*AbsNum); ok {
 			p.unsupported("WriteString(abstract number text)")
